@@ -49,7 +49,11 @@ class Findings:
         self.path = os.path.join(VERIF, "known_findings.json")
         self.entries = []
         if os.path.exists(self.path):
-            self.entries = json.load(open(self.path)).get("findings", [])
+            self.entries = list(json.load(open(self.path)).get("findings", []))
+        # per-property fragments (same format), merged at load time
+        import glob
+        for fp in sorted(glob.glob(os.path.join(VERIF, "known_findings.d", "*.json"))):
+            self.entries += json.load(open(fp)).get("findings", [])
 
     def lookup(self, prop, key):
         for e in self.entries:
@@ -100,7 +104,7 @@ class Ctx:
         self.violations[key] = [what, path, 1]
         return True
 
-    def sample(self, s, cap=6):
+    def sample(self, s, cap=12):
         if len(self.cov["samples"]) < cap:
             self.cov["samples"].append(s)
 
